@@ -1422,10 +1422,14 @@ func exchangeServiceInfoRound(ctx context.Context, transport Transport, mtu uint
 				// of ending the round and abandoning what follows
 				continue
 			}
-			msg.IsMoreServiceInfo = true
 			if maxRead == mtu {
-				msg.IsMoreServiceInfo = false // likely due to a yield... but also could be a malicious large key?
+				// Nothing has been put into this message and the entry still
+				// does not fit: it fits no message of the negotiated size.
+				// Sending an empty message and moving on would drop it (and
+				// everything the module writes after it) without anyone noticing
+				return 0, false, fmt.Errorf("service info entry does not fit into a message of the negotiated size %d: %w", mtu, err)
 			}
+			msg.IsMoreServiceInfo = true
 			break
 		}
 		if err != nil {
